@@ -13,6 +13,8 @@ type ruleFn func(c *Check, p *Prog)
 
 var rules = map[string]ruleFn{
 	"C01": ruleC01,
+	"C02": ruleC02,
+	"C03": ruleC03,
 	"C07": ruleC07,
 	"C08": ruleC08,
 	"C09": ruleC09,
